@@ -383,10 +383,22 @@ Theorem unread_inputs_skipped_soundly_partial :
   (forall d, In d (deps_ids sn) -> U d = false -> sv d = verT st d -> sx d = outT st d) ->
   (forall j l d, j < length (cut (stops n) (map (map sx) (ids_of sn))) -> nth_error (ids_of sn) j = Some l -> In d l -> U d = false) ->
   lstale po (S f) st ur n = Some false ->
-  (forall d, lstale po f st ur d = Some false -> E d = outT st d) ->
+  (forall d, In d (deps_ids sn) -> lstale po f st ur d = Some false -> E d = outT st d) ->
   sn_cache sn = sn_proc sn (cut (stops n) (map (map E) (ids_of sn))).
 Proof. exact skip_unread_sound. Qed.
 Print Assumptions unread_inputs_skipped_soundly_partial.
+
+(* ... and, by induction over the depth of the graph: in EVERY state whose records are what process() writes ([LInv]:
+   per locally clean node the remembered versions / values, the flags, "every consulted input is flagged read") and
+   whose processors look only at the prefix they read ([lazy_procs]), a node the repaired Outdated() calls up to
+   date shows its from-scratch value — graphs of any depth, unread inputs Stale / changed / anything.
+   What is still missing for [read_fresh] over [lrun]: that [lvalue] and the edits preserve [LInv]. *)
+Theorem lazy_up_to_date_is_fresh_partial : forall po stops f st ur n h,
+  perm_ok po -> LInv po stops st ur -> lazy_procs stops st ->
+  depth f (graph_of st) n = Some h -> lstale po f st ur n = Some false ->
+  eval_scratch f (graph_of st) n = Some (outT st n).
+Proof. intros po stops f st ur n h PO. exact (lstale_false_eval po stops PO f st ur n h). Qed.
+Print Assumptions lazy_up_to_date_is_fresh_partial.
 
 (* non-vacuity, and the defect itself: a gate-driven processor (node 3) that does not read its input A (node 2)
    executes once; node 2 stays Stale; the repaired Outdated() ([lstale]) reports node 3 Processed, the unrepaired
